@@ -44,7 +44,7 @@ impl File {
             final(self).size_spec() == old(self).size_spec() + buf@.len(),
             final(self).synced() == old(self).synced(),
             r.is_ok() ==> final(self).trace() == old(self).trace().push(IoEvent::Append(buf@)),
-            r.is_err() ==> final(self).trace() == old(self).trace(),
+            r.is_err() ==> final(self).trace() == old(self).trace() && !is_refusal(r->Err_0),
     { unimplemented!() }
 
     #[verifier::external_body]
@@ -55,7 +55,7 @@ impl File {
             final(self).size_spec() == old(self).size_spec(),
             r.is_ok() ==> final(self).synced() == old(self).size_spec()
                 && final(self).trace() == old(self).trace().push(IoEvent::Sync),
-            r.is_err() ==> final(self).synced() == old(self).synced() && final(self).trace() == old(self).trace(),
+            r.is_err() ==> final(self).synced() == old(self).synced() && final(self).trace() == old(self).trace() && !is_refusal(r->Err_0),
     { unimplemented!() }
 }
 
@@ -91,5 +91,6 @@ impl File {
 // IoDriver::create: a new empty file
 #[verifier::external_body]
 pub fn iodriver_create() -> (r: Result<File, VErr>)
-    ensures r.is_ok() ==> r->Ok_0.wf() && r->Ok_0.size_spec() == 0 && r->Ok_0.synced() == 0 && r->Ok_0.trace() == Seq::<IoEvent>::empty()
+    ensures r.is_ok() ==> r->Ok_0.wf() && r->Ok_0.size_spec() == 0 && r->Ok_0.synced() == 0 && r->Ok_0.trace() == Seq::<IoEvent>::empty(),
+        r.is_err() ==> !is_refusal(r->Err_0)
 { unimplemented!() }
